@@ -380,7 +380,12 @@ namespace link_layer {
             void reset_connection_state()
             {
                 channel_index_         = 0;
+#if defined BLUETOE_VERIF && defined BLUETOE_VERIF_INITIAL_EVENT_COUNTER
+                // verification seam: lets a simulation start a connection close to the wrap around of the 16 bit event counter
+                event_counter_         = BLUETOE_VERIF_INITIAL_EVENT_COUNTER;
+#else
                 event_counter_         = 0;
+#endif
                 time_since_last_event_ = delta_time();
                 base().disarmable_connection_state_last_latency( 1 );
             }
